@@ -3,8 +3,10 @@ package main
 import (
 	"fmt"
 	"go/types"
+	"os"
 	"sort"
 	"strings"
+	"time"
 
 	"golang.org/x/tools/go/ssa"
 )
@@ -58,6 +60,7 @@ func (x *Exec) verifyFunction() {
 		env[fv] = v
 	}
 	x.env0 = env
+	x.t0 = time.Now()
 	x.entry = s.clone()
 	// requires
 	se := x.specEnv(s, env, nil)
@@ -114,6 +117,13 @@ func (x *Exec) curSpecEnv(s *State) *SpecEnv {
 func (x *Exec) exit(s *State, env map[ssa.Value]*Val, rs []*Val) {
 	x.paths++
 	x.exits++
+	if os.Getenv("GOVC_PROGRESS") != "" && x.disc == nil && x.exits%20 == 0 {
+		pc, pu := 0, 0
+		if x.pruner != nil {
+			pc, pu = x.pruner.calls, x.pruner.unsat
+		}
+		fmt.Fprintf(os.Stderr, "progress: exits=%d pruned=%d ifconv=%d prunerCalls=%d unsat=%d obligs=%d pure=%d elapsed=%s\n", x.exits, x.pruned, x.ifconv, pc, pu, len(x.obligs), len(x.pureCache), time.Since(x.t0).Round(time.Second))
+	}
 	if x.paths > x.maxPath {
 		x.tooMany = true
 		x.fail("more than %d paths in %s", x.maxPath, x.fn.Name())
